@@ -420,6 +420,40 @@ func gen(t *rapid.T) Case {
 	if feats["go-extensions"] {
 		goExtensions(t, doc, feats["param-x-go-name"], feats["x-go-name-on-object"])
 	}
+	// names the generator de-conflicts with dedicated code (the client's timeout field and its accessors): planted now
+	// and then, alone and in the combinations that walk the rename chain
+	if chance(t, "timeoutfamily", 30) {
+		family := []string{"timeout", "Timeout", "_timeout", "timeout-", "TIMEOUT", "request-timeout", "RequestTimeout", "request_timeout", "requestTimeout", "http_request_timeout"}
+		ops := specgen.Ops(doc)
+		if len(ops) > 0 {
+			op := ops[specgen.Uniform(t, "tf_op", len(ops))]
+			ps, _ := op.Op["parameters"].(A)
+			used := map[string]bool{}
+			for _, p := range ps {
+				if pj, ok := p.(J); ok {
+					used[mangleKey(fmt.Sprint(pj["name"]))] = true
+				}
+			}
+			n := rapid.IntRange(1, 2).Draw(t, "tf_n")
+			for i, p := range ps {
+				pj, ok := p.(J)
+				if !ok || n == 0 || pj["in"] == "body" || pj["in"] == "path" {
+					continue
+				}
+				name := specgen.Pick(t, fmt.Sprintf("tf_name%d", i), family)
+				if used[mangleKey(name)] {
+					continue
+				}
+				used[mangleKey(name)] = true
+				if pj["in"] == "header" {
+					name = "X-" + name
+				}
+				pj["name"] = name
+				c.Names = append(c.Names, NameUse{Kind: "parameter", Name: name})
+				n--
+			}
+		}
+	}
 	c.Spec = specgen.JSONBytes(doc)
 	c.Excluded = nm.excluded
 	optPool := map[string][]string{
